@@ -119,6 +119,7 @@ def dibs() -> list[Any]:
         dib_device("", True),
         dib_device("Büro Süd ÄÖÜß"),            # the name field is ISO 8859-1
         dib_device("x" * 29 + "ü"),             # full 30 characters, non-ASCII at the end
+        dib_device("IP Interface mit "),        # a name that ends in a blank (as real devices cut theirs)
         dib_families(DIBSuppSVCFamilies, [(DIBServiceFamily.CORE, 1), (DIBServiceFamily.TUNNELING, 2), (DIBServiceFamily.ROUTING, 1)]),
         dib_families(DIBSuppSVCFamilies, []),
         dib_families(DIBSecuredServiceFamilies, [(DIBServiceFamily.TUNNELING, 1)]),
@@ -180,8 +181,9 @@ def bodies(thorough: bool = False) -> Iterator[Any]:
     for h in H[:2]:
         for lst in srp_lists:
             yield SearchRequestExtended(discovery_endpoint=h, srps=list(lst))
-    for lst in dib_lists():
-        for h in H[1:3] if thorough else H[1:2]:
+    for li, lst in enumerate(dib_lists()):
+        # (quick: one endpoint per DIB list, but not the same one throughout - answers of different gateways differ in their endpoint)
+        for h in H[1:3] if thorough else [H[1 + li % 2]]:
             r = SearchResponse(control_endpoint=h)
             r.dibs = list(lst)
             yield r
